@@ -165,6 +165,21 @@ def run(ctx):
     n = 600 if not ctx.thorough else 30000
     lines, expect, meta, spec_lines, spec_meta = [], [], [], [], []
     aff_cases = []
+    # every run starts with the same dtype-ordered sequence (float32, then float16, then bfloat16) of weights holding a null
+    # row, a row of subnormals, an ordinary and a large row: whatever a call leaves behind in the shared default optimizer
+    # or the library must not reach the calls that follow, in this order as in the random order below
+    for F in ("f32", "f16", "bf16"):
+        dt = fmts()[F][0]
+        fi = torch.finfo(dt)
+        sub = fi.tiny * fi.eps       # smallest positive subnormal
+        rows = torch.stack([torch.zeros(8), torch.tensor([sub * k for k in (1, -2, 3, 0, 5, -7, 11, 13)], dtype=torch.float64).float() if F == "f32" else
+                            torch.tensor([sub * k for k in (1, -2, 3, 0, 5, -7, 11, 13)], dtype=torch.float64).to(dt).float(),
+                            torch.linspace(-1.0, 1.0, 8), torch.linspace(-300.0, 250.0, 8)]).to(dt)
+        for kind in ("qint8", "e4m3", "e5m2"):
+            for axis, x in ((0, rows), (-1, rows.t())):
+                weight8_case(ctx, F, kind, axis, x, ["zero", "subnormal", "mixed", "mixed"], lines, expect, meta, spec_lines, spec_meta)
+                ctx.count(f"weight8:ordered-prologue:{F}:{kind}")
+                ctx.evaluations += 1
     for _ in range(n):
         F = rng.choice(["f32", "f16", "bf16"])
         x, axis, gs, names = rand_weight(rng, F)
